@@ -113,6 +113,7 @@ func TestVerifC05PodHandler(t *testing.T) {
 	n := h.N(1500, 40000)
 	for idx := 0; idx < n; idx++ {
 		r := h.Begin(idx)
+		c05DeclReset(h) // round 9: registry of the pod objects declared in this case
 		if r == nil {
 			continue
 		}
